@@ -7,4 +7,4 @@ From Coq Require Import NArith ZArith List.
 From Coq Require Import ExtrOcamlBasic.
 From VV Require Import Cache.CacheDefs Cache.TableTypes Cache.CacheGenDefs Gen.CacheTable Cache.CacheGenDefs2.
 Extraction "cache_model.ml" now_fresh now_find now_insert now_clear now_clear_one now_step now_proxy_eval
-  now_dump now_save now_load now_proxy_save now_proxy_load warp clears_fast M32 Z.of_N Z.to_nat.
+  now_dump now_save now_load now_proxy_save now_proxy_load proxy_fast warp clears_fast M32 Z.of_N Z.to_nat.
